@@ -221,4 +221,40 @@ theorem sched_run_bounded : ∀ (ls : List SLabel) (s s' : SSys), (∀ l ∈ ls,
         have h2 := sched_run_bounded t s1 s' (fun x hx => hl x (by simp [hx])) h
         simp; omega
 
+
+/-- what the terminal input arriving during a run adds to the variant -/
+def inputCost : List SLabel → Nat
+  | [] => 0
+  | .termInput u :: r => unitW u + inputCost r
+  | _ :: r => inputCost r
+
+def schedCount : List SLabel → Nat
+  | [] => 0
+  | l :: r => (if l.sched then 1 else 0) + schedCount r
+
+/-- With terminal input arriving at any moments of the run: the number of scheduler steps is at
+most the variant of the start state plus the cost of the input that arrived. Finite input ⇒ every
+run is finite, however the arrivals are interleaved. -/
+theorem run_bounded_with_input : ∀ (ls : List SLabel) (s s' : SSys),
+    (∀ l ∈ ls, l.sched = true ∨ ∃ u, l = .termInput u) → srun s ls = some s' →
+    schedCount ls + mu s' ≤ mu s + inputCost ls
+  | [], s, s', _, h => by simp [srun] at h; subst h; simp [schedCount, inputCost]
+  | l :: t, s, s', hl, h => by
+      simp only [srun] at h
+      cases hn : snext s l with
+      | none => simp [hn] at h
+      | some s1 =>
+        simp only [hn] at h
+        have ih := run_bounded_with_input t s1 s' (fun x hx => hl x (by simp [hx])) h
+        rcases hl l (by simp) with hs | ⟨u, rfl⟩
+        · have h1 := mu_decreases s s1 l hs hn
+          have hc : inputCost (l :: t) = inputCost t := by cases l <;> simp [SLabel.sched] at hs <;> rfl
+          simp only [schedCount, hs, if_true, hc]; omega
+        · simp only [snext, Option.some.injEq] at hn; subst hn
+          have hm : mu { s with inbuf := s.inbuf ++ [u] } = mu s + unitW u := by
+            simp only [mu, inbufW_append, inbufW]; omega
+          simp only [schedCount, SLabel.sched, inputCost] at ih ⊢
+          rw [hm] at ih
+          simp; omega
+
 end VaxisModel.Lemmas.ConcMeasure
